@@ -284,9 +284,12 @@ func sameGo(a, b any) bool {
 		return false
 	}
 	switch ra.Kind() {
-	case reflect.Float32, reflect.Float64:
+	case reflect.Float64:
+		// a float64 is only ever copied on its way to Go: bit-exact, quiet-NaN payloads included
+		return math.Float64bits(ra.Float()) == math.Float64bits(rb.Float())
+	case reflect.Float32:
 		x, y := ra.Float(), rb.Float()
-		if math.IsNaN(x) || math.IsNaN(y) {
+		if math.IsNaN(x) || math.IsNaN(y) { // the float64 -> float32 conversion may rewrite a NaN payload
 			return math.IsNaN(x) && math.IsNaN(y)
 		}
 		return math.Float64bits(x) == math.Float64bits(y)
@@ -415,7 +418,7 @@ func checkResult(path string, k *goKind, preset SVal, got data.Value) (ok bool, 
 	case "float":
 		if x, is := got.(*data.FloatValue); is {
 			w := reflect.ValueOf(want).Float()
-			if (math.IsNaN(w) && math.IsNaN(x.Value)) || math.Float64bits(w) == math.Float64bits(x.Value) {
+			if (k.Bits == 32 && math.IsNaN(w) && math.IsNaN(x.Value)) || math.Float64bits(w) == math.Float64bits(x.Value) {
 				return true, ""
 			}
 		}
@@ -493,6 +496,7 @@ func buildPools(seed int64, nRand int) *pools {
 	}
 	p.floats = []float64{0, math.Copysign(0, -1), 1.5, -2.25, 0.125, 0.1, 1.0 / 3, math.SmallestNonzeroFloat64, -math.SmallestNonzeroFloat64,
 		2.2250738585072014e-308, 2.225073858507201e-308, -1e-320, math.MaxFloat64, -math.MaxFloat64, math.Inf(1), math.Inf(-1), math.NaN(),
+		math.Float64frombits(0x7ff8dead00000001), math.Float64frombits(0xfff8000000000000), // quiet NaNs with other payloads / sign
 		math.MaxFloat32, -math.MaxFloat32, math.SmallestNonzeroFloat32, 1.1754943508222875e-38, 16777216, 16777217, 1e300, 9223372036854775808.0,
 		9007199254740992, 9007199254740994, 3.0, -7.0}
 	for i := 0; i < nRand; i++ {
@@ -698,9 +702,50 @@ type Case struct {
 	Args []SVal `json:"args"`
 	Ret  *SVal  `json:"ret,omitempty"`
 	Try  bool   `json:"try"`
-	Mode string `json:"mode"` // inj: arguments injected by verif_arg(i); var: script expressions via variables
+	Mode string `json:"mode"`           // inj: arguments injected by verif_arg(i); var: script expressions via variables; hist: variables with a history
+	Prev []SVal `json:"prev,omitempty"` // hist mode: what each variable held before it was reassigned the argument
 	Seed int64  `json:"seed"`
 	Src  string `json:"script,omitempty"`
+}
+
+// prevFor: the value a variable holds before it is reassigned the argument v. Variant 0 is the
+// twin that an "unchanged, skip the store" shortcut would confuse with v: the zero of the other
+// sign, a NaN with another payload, an equal number / same-content string in a different
+// object; variant 1 is a different value of the same type.
+func prevFor(v SVal, variant int) SVal {
+	switch v.K {
+	case "float":
+		f := v.Float()
+		if variant == 0 {
+			switch {
+			case f == 0:
+				return sFloat(math.Copysign(0, -math.Copysign(1, f)))
+			case math.IsNaN(f):
+				return SVal{K: "float", F: v.F ^ 0x0000beef00000000}
+			}
+			return sFloat(f)
+		}
+		if f == 0 || math.IsNaN(f) {
+			return sFloat(1.5)
+		}
+		return sFloat(math.Copysign(0, f))
+	case "int":
+		if variant == 0 {
+			return SVal{K: "int", I: v.I}
+		}
+		return SVal{K: "int", I: v.I ^ 1}
+	case "string":
+		if variant == 0 {
+			return SVal{K: "string", S: append([]byte{}, v.S...)}
+		}
+		if len(v.S) == 0 {
+			return sStr("x")
+		}
+		return SVal{K: "string", S: append([]byte{}, v.S[:len(v.S)-1]...)}
+	case "bool":
+		return SVal{K: "bool", B: v.B == (variant == 0)}
+	}
+	return SVal{K: "int", I: 0}
 }
 
 // casesFor is a pure function of (seed, tuples-per-signature, signature index).
@@ -723,6 +768,21 @@ func casesFor(p *pools, seed int64, tuples int, si int, s Sig) []Case {
 				t = "t"
 			}
 			out = append(out, Case{ID: fmt.Sprintf("%s%s#%d%s", s.Path, s.Name(), n, t), Sig: s, Args: args, Ret: ret, Try: try, Mode: mode, Seed: seed})
+		}
+	}
+	// hist mode: every argument travels through a variable slot that held another value of the same
+	// type first (variant 0: an equal-looking twin, variant 1: a different value)
+	addHist := func(n int, variant int, args []SVal, ret *SVal, tries ...bool) {
+		prev := make([]SVal, len(args))
+		for i, a := range args {
+			prev[i] = prevFor(a, variant)
+		}
+		for _, try := range tries {
+			t := "n"
+			if try {
+				t = "t"
+			}
+			out = append(out, Case{ID: fmt.Sprintf("%s%s#%dh%d%s", s.Path, s.Name(), n, variant, t), Sig: s, Args: args, Prev: prev, Ret: ret, Try: try, Mode: "hist", Seed: seed})
 		}
 	}
 	var retPool []SVal
@@ -757,6 +817,9 @@ func casesFor(p *pools, seed int64, tuples int, si int, s Sig) []Case {
 				add(n, true, []SVal{v}, pickRet(off+i+1))
 				n++
 			}
+			addHist(n, 0, []SVal{v}, pickRet(off+i+2), i%2 == 0)
+			addHist(n, 1, []SVal{v}, pickRet(off+i+3), i%2 == 1)
+			n++
 		}
 	default:
 		for j := 0; j < tuples; j++ {
@@ -777,6 +840,10 @@ func casesFor(p *pools, seed int64, tuples int, si int, s Sig) []Case {
 						args[i] = m[r.Intn(len(m))]
 					}
 				}
+			}
+			if j%4 == 2 {
+				addHist(j, (j/4+si)%2, args, pickRet(r.Intn(1<<20)), true, false)
+				continue
 			}
 			add(j, j%2 == 1, args, pickRet(r.Intn(1<<20)))
 		}
